@@ -153,7 +153,7 @@ impl Tracer {
     /// Writes one completed call. Registry / allocator / oracle logs are taken from the window.
     pub fn emit(&mut self, ev: &Event, states: &[TState]) {
         self.seq += 1;
-        let (drops, allocs, hc, ec, cc, hlog, elog, nlive) = env::with(|e| {
+        let (drops, allocs, hc, ec, cc, hlog, elog, nlive, created) = env::with(|e| {
             let mut d = e.drops.clone();
             d.sort();
             (
@@ -165,6 +165,7 @@ impl Tracer {
                 e.hash_log.clone(),
                 e.eq_log.clone(),
                 e.live.len(),
+                e.created.clone(),
             )
         });
         let bl = env::live_blocks();
@@ -186,6 +187,8 @@ impl Tracer {
         }
         s.push_str("],\"dr\":");
         jarr(&mut s, &drops);
+        s.push_str(",\"nw\":");
+        jarr(&mut s, &created);
         s.push_str(",\"al\":[");
         for (i, a) in allocs.iter().enumerate() {
             if i > 0 {
